@@ -15,7 +15,7 @@ import sys
 import types
 import z3
 
-from .sorts import (Sym, SInt, SBool, SBytes, SStr, SVal, SVL, SF64, Val, VL, Bytes, Int, Bool, F64, SORTS,
+from .sorts import (HeapRef, Sym, SInt, SBool, SBytes, SStr, SVal, SVL, SF64, Val, VL, Bytes, Int, Bool, F64, SORTS,
                     WRAP, seq_lit, fresh, typeof, typeof_axiom, type_id, TYPE_ID, wrap_sort)
 from . import ops
 from .ops import Unsupported, truth, b2v, i2v, zint, zbool, zseq, to_val, to_vl, Choice, TRUE, FALSE, is_sym
@@ -56,7 +56,7 @@ class Cont(object):
 _oid_counter = [0]
 
 
-class Obj(object):
+class Obj(HeapRef):
     """a heap object with concrete identity (parameters, allocations, model objects)"""
 
     def __init__(self, cls, name, kind="obj"):
@@ -180,6 +180,7 @@ class Executor(object):
         self.used_callee_clauses = set()
         self.inlined = set()
         self.used_lemmas = set()
+        self.canaries = []
 
     # -- source location ----------------------------------------------------------------------
     def locate(self, relfile, qualname):
@@ -217,6 +218,8 @@ class Executor(object):
                 f = f.__func__
             if isinstance(f, property):
                 f = f.fget
+            if isinstance(f, types.MethodType):
+                f = f.__func__
             f = getattr(f, "__wrapped__", f)
             funcobj = f
             if not hasattr(f, "__code__"):
@@ -250,6 +253,22 @@ class Executor(object):
         self.obligations.append(Obligation(oid, list(st.pc) + list(extra_hyps), goal, props, kind, note,
                                            meta={"labels": list(st.labels), "function": c.target,
                                                  "behaviour": b.name}))
+
+    def canary(self, st, where, pc_before):
+        """vacuity guard: assuming a contract / invariant / precondition must not make the path infeasible"""
+        c, b = self.cur[0], self.cur[1]
+        prefix = "%s" % c.qualname if b.name == "default" else "%s[%s]" % (c.qualname, b.name)
+        self.canaries.append(Obligation("%s/canary:%s[%s]" % (prefix, where, self.path_label(st)), list(st.pc), FALSE,
+                                        [], "canary", meta={"before": list(pc_before), "function": c.target,
+                                                            "behaviour": b.name}))
+
+    def apply_sets(self, st, pre, env, sets):
+        for loc, expr in sets.items():
+            tgt, fname = loc.rsplit(".", 1)
+            o, _ = self.spec.evaluate(self, tgt, pre, pre, env)
+            v, facts = self.spec.evaluate(self, expr, pre, pre, env)
+            st.pc.extend(facts)
+            st.heap[(o.oid, fname)] = v
 
     # -- values -------------------------------------------------------------------------------
     def fresh_of(self, sort, name):
@@ -334,6 +353,11 @@ class Executor(object):
             st.ghost[g] = self.fresh_of(s, g)
         self.type_invariants(st, st.env.values())
         self.type_invariants(st, st.ghost.values())
+        for loc, expr in beh.init.items():
+            tgt, fname = loc.rsplit(".", 1)
+            o, _ = self.spec.evaluate(self, tgt, st, st, self.spec_scope(st))
+            v, _ = self.spec.evaluate(self, expr, st, st, self.spec_scope(st))
+            st.heap[(o.oid, fname)] = v
         pre = st.fork()
         self.pre_state = pre
         self.pre_oid_mark = _oid_counter[0]
@@ -343,6 +367,7 @@ class Executor(object):
             st.pc.extend(facts)
             st.assume(z)
         self.use_hints(st, beh.hints)
+        self.canary(st, "entry", [])
         # case splits
         splits = [None]
         if beh.split:
@@ -375,9 +400,9 @@ class Executor(object):
                 pass  # byte range facts are added on demand by models that need them
             if isinstance(v, SVal):
                 st.assume(self.spec.val_wf(v.z))
-            if getattr(v, "kind", None) == "complex":
+            if isinstance(v, Sym) and v.kind == "complex":
                 st.assume(Val.is_VComplex(v.z))
-            if getattr(v, "kind", None) == "slice":
+            if isinstance(v, Sym) and v.kind == "slice":
                 st.assume(Val.is_VSlice(v.z))
 
     def spec_scope(self, st, extra=None):
@@ -415,14 +440,21 @@ class Executor(object):
                 z, facts = self.spec_bool(st, pre, sx, scope)
                 self.oblige(st, "exc:%s.state%d@%s" % (name, i, lab), z, props=spec.get("props", ()), kind="exc",
                             extra_hyps=facts)
+            for loc, expr in spec.get("sets", {}).items():
+                self.check_set(st, pre, scope, loc, expr, "exc:%s.sets:%s@%s" % (name, loc, lab), spec.get("props", ()))
             self.check_frame(st, pre, beh, lab, spec.get("modifies"))
             return
         value = out.value if isinstance(out, Ret) else None
+        if beh.noreturn:
+            self.oblige(st, "post:never-returns@%s" % lab, FALSE, props=self.all_props(beh), kind="post",
+                        note="the contract says this function always raises")
         # in postconditions a parameter name denotes its value at entry (parameters are mutable locals)
         scope = self.spec_scope(st, dict(pre.env, result=value))
         for cname, (expr, props) in beh.ensures.items():
             z, facts = self.spec_bool(st, pre, expr, scope)
             self.oblige(st, "post:%s@%s" % (cname, lab), z, props=props, kind="post", extra_hyps=facts)
+        for loc, expr in beh.sets.items():
+            self.check_set(st, pre, scope, loc, expr, "post:sets:%s@%s" % (loc, lab), self.all_props(beh))
         # `must raise` conditions: a normally returning path contradicts them
         for name, spec in beh.raises.items():
             if spec.get("when"):
@@ -430,6 +462,18 @@ class Executor(object):
                 self.oblige(st, "must-raise:%s@%s" % (name, lab), z3.Not(z), props=spec.get("props", ()), kind="exc",
                             extra_hyps=facts)
         self.check_frame(st, pre, beh, lab, None)
+
+    def check_set(self, st, pre, scope, loc, expr, oid, props):
+        tgt, fname = loc.rsplit(".", 1)
+        o, _ = self.spec.evaluate(self, tgt, pre, pre, scope)
+        want, facts = self.spec.evaluate(self, expr, pre, pre, scope)
+        have = self.heap_get(st, o, fname)
+        if isinstance(have, HeapRef) or isinstance(want, HeapRef) or not (is_sym(have) or is_sym(want)):
+            same = ops.identical(have, want)
+        else:
+            same = ops.eq(have, want)
+        self.oblige(st, oid, same, props=props, kind="post", extra_hyps=facts,
+                    note="field must hold exactly the stated value on this exit")
 
     def all_props(self, beh):
         ps = set()
@@ -902,6 +946,11 @@ class Executor(object):
                         props=lc.get("props", self.all_props(self.cur[1])), kind="inv", extra_hyps=facts)
 
     def assume_invariants(self, st, lc, extra_scope=None):
+        before = list(st.pc)
+        self._assume_invariants(st, lc, extra_scope)
+        self.canary(st, "loop-head", before)
+
+    def _assume_invariants(self, st, lc, extra_scope=None):
         for inv in lc.get("invariant", []):
             z, facts = self.spec_bool(st, self.pre_state, inv, self.spec_scope(st, extra_scope))
             st.pc.extend(facts)
@@ -1285,6 +1334,9 @@ class Executor(object):
         if isinstance(o, types.ModuleType) or isinstance(o, type):
             yield st, self.lib.wrap_global(self, o, name, v)
             return
+        if isinstance(v, types.MethodType) and self.is_repo_function(v.__func__) and v.__self__ is o:
+            yield st, BoundMethod(o, v.__func__, name)
+            return
         if callable(v) and not isinstance(v, type):
             yield st, BoundMethod(o, v, name)
             return
@@ -1499,15 +1551,35 @@ class Executor(object):
         caller_beh = self.cur[1]
         hint = caller_beh.calls.get(key) or caller_beh.calls.get(name) or caller_beh.calls.get("*") or {}
         self.call_ordinals[name] = self.call_ordinals.get(name, 0) + 1
-        bname = hint.get("behaviour") or (caller_beh.name if caller_beh.name in c.behaviours else "default")
-        if bname not in c.behaviours:
-            raise CheckerError("callee %s has no behaviour %s" % (c.target, bname))
-        beh = c.behaviours[bname]
         bound = self.bind_params(f, args, kwargs)
         ln = self.rel_line(node)
         if bound is None:
             yield st.label("L%d:arity" % ln), Raised(TypeError, ExcObj(TypeError))
             return
+        bname = hint.get("behaviour")
+        if bname is None and c.dispatch:
+            for cond, bn in c.dispatch:
+                if cond is None:
+                    bname = bn
+                    break
+                cv, _ = self.spec.evaluate(self, cond, st, st, dict(bound))
+                t = truth(cv)
+                if not isinstance(t, bool):
+                    t = z3.simplify(t)
+                    if z3.is_true(t):
+                        t = True
+                    elif z3.is_false(t):
+                        t = False
+                    else:
+                        raise Unsupported("behaviour dispatch of %s on a symbolic condition" % c.target)
+                if t:
+                    bname = bn
+                    break
+        if bname is None:
+            bname = caller_beh.name if caller_beh.name in c.behaviours else "default"
+        if bname not in c.behaviours:
+            raise CheckerError("callee %s has no behaviour %s" % (c.target, bname))
+        beh = c.behaviours[bname]
         env = {}
         for pname, v in bound.items():
             if pname not in c.params:
@@ -1524,6 +1596,8 @@ class Executor(object):
             st.pc.extend(facts)
             env[g] = self.coerce(st, gv, sort, "%s.ghost.%s" % (name, g), node)
         pre = st.fork()
+        pre.env = dict(env)          # old(...) in the callee's clauses sees the callee's parameters
+        pre.ghost = {}
         lab = self.path_label(st)
         for i, r in enumerate(beh.requires):
             z, facts = self.spec.evaluate_bool(self, r, st, pre, env)
@@ -1542,13 +1616,18 @@ class Executor(object):
                 b.pc.extend(facts)
                 b.assume(z)
             exc = ExcObj(ecls)
+            self.apply_sets(b, pre, env, spec.get("sets", {}))
+            before = list(b.pc)
             for sx in spec.get("state", []):
                 z, facts = self.spec.evaluate_bool(self, sx, b, pre, dict(env, exc=exc))
                 b.pc.extend(facts)
                 b.assume(z)
             if self.feasible(b):
+                self.canary(b, "L%d:%s raises %s" % (ln, name, ename), before)
                 yield b, Raised(ecls, exc)
         # normal exit
+        if beh.noreturn:
+            return
         ok = st
         for ename, spec in beh.raises.items():
             if spec.get("when"):
@@ -1561,30 +1640,38 @@ class Executor(object):
             result = self.fresh_of(beh.result, "%s.result@L%d" % (name, ln))
             self.type_invariants(ok, [result])
         env2 = dict(env, result=result)
+        self.apply_sets(ok, pre, env, beh.sets)
+        before = list(ok.pc)
         for cname, (expr, props) in beh.ensures.items():
             z, facts = self.spec.evaluate_bool(self, expr, ok, pre, env2)
             ok.pc.extend(facts)
             ok.assume(z)
+        self.canary(ok, "L%d:%s returns" % (ln, name), before)
         yield ok, result
 
     def havoc_modifies(self, st, env, modifies, tag):
         tmp = State()
         tmp.env = env
-        tmp.heap = st.heap
+        tmp.heap = dict(st.heap)
+        # resolve every location against the heap BEFORE anything is havocked (x.f and x.f.g may both be listed)
+        keys = []
         for m in modifies:
-            for key in self.resolve_location(tmp, m):
-                oid, fld = key
-                if fld == "joined":
-                    st.heap[key] = SBytes(fresh("joined~%s" % tag, Bytes))
-                elif fld == "n":
-                    st.heap[key] = SInt(fresh("n~%s" % tag, Int))
-                else:
-                    obj = [o for o in self.live_objs(tmp) if o.oid == oid] + \
-                          [o for o in self.live_objs(st) if o.oid == oid]
-                    srt = self.field_sort(obj[0], fld) if obj else None
-                    if srt is None:
-                        raise CheckerError("cannot havoc %s" % m)
-                    st.heap[key] = self.fresh_of(srt, "%s.%s~%s" % (obj[0].name, fld, tag))
+            for key in sorted(self.resolve_location(tmp, m)):
+                if key not in keys:
+                    keys.append(key)
+        objs = {o.oid: o for o in list(self.live_objs(tmp)) + list(self.live_objs(st))}
+        for key in keys:
+            oid, fld = key
+            if fld == "joined":
+                st.heap[key] = SBytes(fresh("joined~%s" % tag, Bytes))
+            elif fld == "n":
+                st.heap[key] = SInt(fresh("n~%s" % tag, Int))
+            else:
+                obj = objs.get(oid)
+                srt = self.field_sort(obj, fld) if obj is not None else None
+                if srt is None:
+                    raise CheckerError("cannot havoc %s.%s" % (obj, fld))
+                st.heap[key] = self.fresh_of(srt, "%s.%s~%s" % (obj.name, fld, tag))
 
 
 class ops_SymRange(object):
